@@ -61,6 +61,7 @@ def _metric_formula(h, model, u, v):
 
 def metric(h, n=2, model="poincare"):
     """cosh(d_lib(p, q)) equals the closed-form metric of `model` evaluated on that model's coordinates"""
+    h.prove_lemmas()
     x = h.arr('x', (n,))
     y = h.arr('y', (n,))
     _ball(h, x)
@@ -84,6 +85,8 @@ def metric(h, n=2, model="poincare"):
 
 
 def metric_laws(h, n=1, law="basic", order=None):
+    if law == "basic":
+        h.prove_lemmas()
     x = h.arr('x', (n,))
     y = h.arr('y', (n,))
     _ball(h, x)
